@@ -59,6 +59,8 @@ type vHistCell struct {
 	TokenState string `json:"token_state"`
 	Hit        bool   `json:"reached"`
 	Resp       string `json:"response"`
+	// the state the history was written for (a use of T before any wait that outlasts T is meant to be valid)
+	Intended string `json:"intended_token_state"`
 	verdict    *vVerdict
 	infra      string
 }
@@ -143,9 +145,14 @@ func vRunHistory(cfg vSrvCfg, events []string) (res vHistResult, err error) {
 		toks[d.n] = t
 	}
 	usedValid := map[string]bool{}
+	waited := map[string]bool{}
 	for step, ev := range events {
 		arg := ev[strings.Index(ev, "(")+1 : len(ev)-1]
 		if strings.HasPrefix(ev, "wait") {
+			waited[arg] = true
+			if arg == "T2" {
+				waited["T1"] = true // T1 expires before T2
+			}
 			if d := time.Until(toks[arg].exp.Add(vHistMargin)); d > 0 {
 				time.Sleep(d)
 			}
@@ -187,7 +194,13 @@ func vRunHistory(cfg vSrvCfg, events []string) (res vHistResult, err error) {
 			}
 			for i, m := range reps {
 				cell := vHistCell{Step: step, Event: ev, Transport: tr, Method: m.Name, Tag: m.Tag, TokenState: state,
-					Hit: obs[i].Hit, Resp: obs[i].Resp.Class}
+					Hit: obs[i].Hit, Resp: obs[i].Resp.Class, Intended: state}
+				if arg == "T1" || arg == "T2" {
+					cell.Intended = "valid"
+					if waited[arg] {
+						cell.Intended = "expired"
+					}
+				}
 				if state == "expired" && usedValid[arg] {
 					res.ExpiredAfterValidUse++
 				}
@@ -257,6 +270,9 @@ type vHistStats struct {
 	ReachedValid         int64
 	KeptOutExpired       int64
 	Uses                 int64
+	AsIntended           int64
+	NotAsIntended        int64
+	Retries              int64
 	Wall                 float64
 	Complete             bool
 	Sample               any
@@ -291,7 +307,14 @@ func vRunHistories(cfg vSrvCfg, maxLen, workers int, deadline time.Time, onViola
 				next++
 				mu.Unlock()
 				res, err := vRunHistory(cfg, h)
+				retries := 0
+				for err != nil && retries < 3 && vTransportError(err) {
+					// a connection dropped under machine load is not an observation: run the history again on a fresh server
+					retries++
+					res, err = vRunHistory(cfg, h)
+				}
 				mu.Lock()
+				st.Retries += int64(retries)
 				if err != nil {
 					st.Complete = false
 					if len(st.Infra) < 5 {
@@ -313,6 +336,11 @@ func vRunHistories(cfg vSrvCfg, maxLen, workers int, deadline time.Time, onViola
 					if c.TokenState == "inconclusive" {
 						st.Inconclusive++
 						continue
+					}
+					if c.Intended == c.TokenState {
+						st.AsIntended++
+					} else {
+						st.NotAsIntended++
 					}
 					st.Outcomes[c.Resp]++
 					if c.Resp == "reached" || c.Resp == "denied" || c.Resp == "401" {
@@ -344,4 +372,15 @@ func vRunHistories(cfg vSrvCfg, maxLen, workers int, deadline time.Time, onViola
 	wg.Wait()
 	st.Wall = time.Since(start).Seconds()
 	return st
+}
+
+// vTransportError: the request did not get an answer at all (connection refused / reset / closed).
+func vTransportError(err error) bool {
+	m := err.Error()
+	for _, x := range []string{"EOF", "connection reset", "broken pipe", "connection refused", "i/o timeout", "use of closed network connection"} {
+		if strings.Contains(m, x) {
+			return true
+		}
+	}
+	return false
 }
